@@ -1,5 +1,6 @@
 import SfModel.Routes
 import SfModel.RoutesApi
+import SfModel.RoutesLatch
 import Driver.Util
 /-! `sfmodel routes` — the C14 correspondence driver: the case lines of harness/routes.c interpreted on `Sf.Routes`.
 
@@ -47,20 +48,22 @@ def showObs (r : R) (isRead : Bool) : String :=
 def runOps (sh : Shim) (w : World) (ops : List String) : String × Shim × World := Id.run do
   let mut sh := sh
   let mut w := w
+  let mut latch := false        -- psf->file.seek_failed (Sf.RoutesLatch): seeks and writes go through fseekL / fwriteL
   let mut out := ""
   for op in ops do
     let f := op.splitOn ":"
     let a := parseInt (f.getD 1 "0")
     let b := parseInt (f.getD 2 "0")
     let k := f.headD ""
+    let xs := Sf.RoutesLatch.fseekL { sh := sh, seekFailed := latch } w a b.toNat
     let r : Option (R × Bool) :=
-      if k == "s" then some (fseek sh w a b.toNat, false)
+      if k == "s" then some (xs.r, false)
       else if k == "t" then some (ftell sh w, false)
       else if k == "l" then some (getFilelen sh w, false)
       else if k == "x" then some (ftruncate sh w a, false)
       else if k == "c" then some (fclose sh w, false)
       else if k == "r" then some (fread sh w a b, true)
-      else if k == "w" then some (fwrite sh w a b (parseHexBytes (f.getD 3 "")), false)
+      else if k == "w" then some ((Sf.RoutesLatch.fwriteL { sh := sh, seekFailed := latch } w a b (parseHexBytes (f.getD 3 ""))).r, false)
       else none
     match r with
     | none => out := out ++ " ?"
@@ -68,6 +71,7 @@ def runOps (sh : Shim) (w : World) (ops : List String) : String × Shim × World
       out := out ++ showObs r isRead
       sh := r.sh
       w := r.w
+      if k == "s" then latch := xs.seekFailed
   return (out, sh, w)
 
 def fdState (route : String) (w : World) : String :=
